@@ -88,14 +88,8 @@ def main():
   with open(path, 'w') as f:
     json.dump(man, f, indent=1)
     f.write('\n')
-  try:
-    sys.path.insert(0, '/opt/veriftools/pyvenv/lib/python3.11/site-packages')
-    import jsonschema
-    with open('/root/.vp/MANIFEST.schema.json') as f:
-      jsonschema.validate(man, json.load(f))
-    print('MANIFEST.json valid: %d checks, %d not_applicable' % (len(man['checks']), len(man['not_applicable'])))
-  except ImportError:
-    print('jsonschema unavailable; wrote MANIFEST.json unvalidated')
+  import subprocess
+  subprocess.call(['python3-vt', os.path.join(HERE, 'tools', 'validate.py')])
 
 
 if __name__ == '__main__':
